@@ -135,8 +135,12 @@ def run_case(case, ctx):
             st.seen("rejected_decoy", d)
             st.count("rejected_decoy.%s" % d)
         st.seen("decoy_reference_class", "%s:%s" % (d, cls))
+    st.seen("pattern_frame", pat.get("frame", "random"))
     st.seen("atol", atol)
     st.seen("schedule", case["schedule"])
+    for grp, pose in zip(built["planted"], built["poses"]):
+        if tuple(sorted(grp)) in occ and tuple(sorted(grp)) in keys and pose.endswith("_exact"):
+            st.seen("accepted_exact_pose_in_frame", "%s/%s" % (pose, pat.get("frame", "random")))
     if (occ and straddle) or built["decoy_groups"]:
         ctx.nontrivial(case["s"])
     if occ and straddle and len(built["atoms"]) <= 16:
@@ -162,6 +166,8 @@ def requirements(stats, tier):
         need.append("accepted occurrences for only %d of %d pattern classes" % (stats.nseen("accepted_pattern_class"), len(patterns.CLASSES)))
     if stats.nseen("accepted_pose") < len(planted.POSES):
         need.append("accepted occurrences for only %d pose classes" % stats.nseen("accepted_pose"))
+    if sum(1 for x in stats.sets.get("accepted_exact_pose_in_frame", ()) if x.startswith("axis_antiparallel_exact/axis")) < 3:
+        need.append("exactly antiparallel copies of patterns whose search axis lies along a signed coordinate axis: %s" % sorted(stats.sets.get("accepted_exact_pose_in_frame", ())))
     if stats.get("searches") < (500 if tier == "quick" else 45000):
         need.append("too few searches: %d" % stats.get("searches"))
     if stats.get("contract_eval.C01.in_domain") < stats.get("searches"):
